@@ -74,6 +74,35 @@ var placements = []placement{
 	{name: "q6-code-4sp-glued", pre: "    x", post: "y\n", code: true, lead: "x", trail: "y"},
 }
 
+// Placements after inline HTML in a document that begins with an indented code
+// block (and, as control, the same with the code block not at the start of
+// the file): the show must still be lexed in Markdown context. They are
+// enumerated over the reduced alphabet.
+var htmlPlacements = func() []placement {
+	var ps []placement
+	starts := []struct{ name, text string }{
+		{"file-starts-with-tab-code", "\tcode\n\n"},
+		{"file-starts-with-4sp-code", "    code\n\n"},
+		{"tab-code-after-paragraph", "p\n\n\tcode\n\n"},
+	}
+	holes := []struct{ name, pre, post string }{
+		{"0-tags", "Status:", "\n"},
+		{"after-br", "Status:<br>", "\n"},
+		{"after-2-br", "Status:<br>zz<br>", "\n"},
+		{"after-b-element", "Status:<b>zz</b>", "\n"},
+		{"after-img", "Status:<img src=\"x\">", " y\n"},
+		{"after-br-and-img", "S:<br>zz<img src=\"x\">", "\n"},
+	}
+	for i, st := range starts {
+		for j, h := range holes {
+			ps = append(ps, placement{name: fmt.Sprintf("r%d%d-%s-%s", i+1, j+1, st.name, h.name), pre: st.text + h.pre, post: h.post})
+		}
+	}
+	return ps
+}()
+
+var stripHTML = strings.NewReplacer("<br>", "", "<b>", "", "</b>", "", "<img src=\"x\">", "")
+
 type converter struct {
 	name string
 	md   goldmark.Markdown
@@ -264,6 +293,9 @@ func buildSite(p placement) *site {
 		st.benign[c.name] = c.convert([]byte(out))
 		st.empty[c.name] = c.convert([]byte(p.pre + p.post))
 	}
+	if strings.HasPrefix(p.name, "r") {
+		return st // never batched, see renderAt
+	}
 	// self-check of the batch rendering against the single rendering
 	var probe []string
 	for _, a := range paraAlphabet {
@@ -342,7 +374,7 @@ func (st *site) verdict(c converter, v, rendered string) (effect, detail string)
 		}
 		return "", ""
 	}
-	if g, w := normPara(got.text), normPara(st.p.pre+v+st.p.post); g != w {
+	if g, w := normPara(got.text), normPara(stripHTML.Replace(st.p.pre)+v+stripHTML.Replace(st.p.post)); g != w {
 		return "text-content", fmt.Sprintf("expected text %q\nobserved text %q\nhtml %q", w, g, got.html)
 	}
 	return "", ""
@@ -495,6 +527,11 @@ func spaces(tier string) []kit.Space {
 		}
 		cache := map[uint64]*batchRes{}
 		renderAt := func(i uint64) (string, error) {
+			if strings.HasPrefix(p.name, "r") {
+				// where the document starts is the point of these placements:
+				// rendered one by one with the placement's own template
+				return st.render(en.At(i))
+			}
 			b := i / batchSize
 			mu.Lock()
 			r := cache[b]
@@ -585,6 +622,9 @@ func spaces(tier string) []kit.Space {
 			add(p, paraAlphabet, nPara, "")
 		}
 	}
+	for _, p := range htmlPlacements {
+		add(p, paraCore, coreN-1, ".core")
+	}
 	for _, p := range placements {
 		if p.code {
 			add(p, codeCore, coreN+1, ".core")
@@ -599,7 +639,7 @@ func main() {
 	kit.Main(&kit.Check{
 		ID:    "C26",
 		Level: "model_checking",
-		Rule: "every string up to the tier's length over 30 characters (all arms of markdownEscape's switch + unescaped punctuation + tab/space/newline + a,1,h) shown at 6 paragraph placements and 6 indented-code placements, plus one/two more symbols of depth over reduced alphabets (\".core\" spaces); " +
+		Rule: "every string up to the tier's length over 30 characters (all arms of markdownEscape's switch + unescaped punctuation + tab/space/newline + a,1,h) shown at 6 paragraph placements and 6 indented-code placements, and (reduced alphabet, one symbol less) at 18 placements after 0-2 inline HTML tags in documents that begin with an indented code block or have it after a paragraph, plus one/two more symbols of depth over reduced alphabets (\".core\" spaces); " +
 			"non-trivial = the escaper changed the string or the string holds whitespace (the cases where Markdown's block structure is at stake); every index is a distinct (placement, string)",
 		Assumptions: []string{
 			"reference converter: goldmark v1.7.16, CommonMark defaults, html.WithUnsafe so raw HTML is visible; its HTML is tokenised with x/net/html",
